@@ -94,6 +94,9 @@ func verifC11Gen(t *rapid.T, w *verifC11World) *verifC11Act {
 		if op := verifC11MultiNode(t, w); op != nil {
 			return &verifC11Act{A: "commit", Op: op}
 		}
+		if op := verifC11ConfigExtra(t, w); op != nil {
+			return &verifC11Act{A: "commit", Op: op}
+		}
 		return &verifC11Act{A: "commit", Op: verifC11Retarget(t, w.gen.DrawOp(t, verifC11Cfg))}
 	case "acl":
 		return &verifC11Act{A: "acl", Idx: w.gen.NextIdx(t), ACL: verifC11Pick(t, "aclop", []string{
@@ -196,6 +199,47 @@ func verifC11MultiNode(t *rapid.T, w *verifC11World) *vs.Op {
 // verifC11Retarget sometimes turns a drawn sidecar registration into the registration of ONE fixed sidecar identity
 // ("sidecar"/"sidecar-1") whose destination varies: the shared generator derives a proxy's ID from its destination,
 // so without this no history would ever re-point an existing proxy instance at another service.
+// verifC11ConfigExtra sometimes writes (or deletes) a config entry of the kinds the shared generator leaves out and
+// that have a stream topic of their own: mesh, exported-services, jwt-provider.
+func verifC11ConfigExtra(t *rapid.T, w *verifC11World) *vs.Op {
+	if !verifC11Chance(t, "configextra", 4) {
+		return nil
+	}
+	var e structs.ConfigEntry
+	switch verifC11Pick(t, "cexkind", []string{"mesh", "exported", "exported", "jwt", "jwt"}) {
+	case "mesh":
+		e = &structs.MeshConfigEntry{TransparentProxy: structs.TransparentProxyMeshConfig{MeshDestinationsOnly: verifC11Chance(t, "meshdestonly", 50)},
+			AllowEnablingPermissiveMutualTLS: verifC11Chance(t, "meshpermissive", 50)}
+	case "exported":
+		ex := &structs.ExportedServicesConfigEntry{Name: "default"}
+		for i, n := 0, rapid.IntRange(1, 2).Draw(t, "nexported"); i < n; i++ {
+			nm := verifC11Pick(t, "exsvc", []string{"web", "api", "db", "*"})
+			dup := false
+			for _, x := range ex.Services {
+				dup = dup || x.Name == nm
+			}
+			if !dup {
+				ex.Services = append(ex.Services, structs.ExportedService{Name: nm, Consumers: []structs.ServiceConsumer{{Peer: verifC11Pick(t, "expeer", []string{"peerA", "peerB"})}}})
+			}
+		}
+		e = ex
+	default:
+		e = &structs.JWTProviderConfigEntry{Kind: structs.JWTProvider, Name: verifC11Pick(t, "jwtname", []string{"okta", "auth0"}),
+			Issuer: verifC11Pick(t, "jwtissuer", []string{"https://a.example", "https://b.example"}),
+			JSONWebKeySet: &structs.JSONWebKeySet{Remote: &structs.RemoteJWKS{URI: "https://a.example/jwks", FetchAsynchronously: true}}}
+	}
+	if err := e.Normalize(); err != nil {
+		return nil
+	}
+	if err := e.Validate(); err != nil {
+		return nil
+	}
+	if _, cur, _ := w.gen.Store.ConfigEntry(nil, e.GetKind(), e.GetName(), nil); cur != nil && verifC11Chance(t, "cexdelete", 30) {
+		return vs.NewConfig(vs.ConfigDelete, w.gen.NextIdx(t), structs.ConfigEntryDelete, e)
+	}
+	return vs.NewConfig(vs.ConfigSet, w.gen.NextIdx(t), structs.ConfigEntryUpsert, e)
+}
+
 func verifC11Retarget(t *rapid.T, op *vs.Op) *vs.Op {
 	if op.Kind != vs.Register || op.P.Reg.Service == nil || op.P.Reg.Service.Kind != structs.ServiceKindConnectProxy || op.P.Reg.PeerName != "" {
 		return op
